@@ -268,6 +268,14 @@ def make_rule_case(g, rr, docs):
     elif x < 0.75:
         m["cast"] = r.choice([c for c in ([], ["int"], ["bool"]) if c != rr["cast"]])
         what = "cast"
+    if r.random() < 0.12 and rr["parts"]:
+        # a rule whose condition mixes value-kind leaves with key / index leaves (these read the position in the
+        # selection), against the same rule with the operands commuted: equal, and the same verdicts
+        t = terms.gen_tree(g, r.choice(["value+index", "index", "value+index"]), depth=r.choice([1, 2]), null_p=0.0)
+        if t[0] == "bin":
+            rr = dict(rr, cond=t, cast=[])
+            m = dict(copy.deepcopy(rr), cond=("bin", t[1], t[3], t[2]))
+            what = "mixed-kind-commuted"
     c = Case("eq_rule", {"x": rc.rule_desc(rr), "y": rc.rule_desc(m), "mutation": what})
     c.py = rc.PY_HEAD + f"x = {rc.rule_py(rr)}\ny = {rc.rule_py(m)}\nprint(x == y, y == x)"
     bx, by, bx2 = (enc.outcome(lambda: rc.build_rule(rr)), enc.outcome(lambda: rc.build_rule(m)),
